@@ -1,5 +1,5 @@
 """Registry of all translators: Gen/<name>.v  <-  function returning Coq text."""
-from translate import ops, gatecode, wrapper, groupsum, guards, parse, models, dispatch, thermo, libio, persist
+from translate import ops, gatecode, wrapper, groupsum, guards, parse, models, dispatch, thermo, libio, persist, sampling
 
 ALL = {
     "Ops": ops.gen_ops,
@@ -16,4 +16,5 @@ ALL = {
     "ThermoSrc": thermo.gen_thermo,
     "LibIO": libio.gen_libio,
     "Persist": persist.gen_persist,
+    "Sampling": sampling.gen_sampling,
 }
